@@ -346,11 +346,14 @@ pub fn checks() -> Vec<Box<dyn Check>> {
 }
 
 pub fn run(ctx: &Ctx) -> i32 {
-    let parts = vec![
+    let mut parts = vec![
         crate::corpus_part(ctx, &checks()),
         run_pbt(ctx, &InProcess, ctx.n(12_000, 250_000)),
         run_pbt(ctx, &Binary, ctx.n(1_500, 40_000)),
     ];
+    if ctx.thorough() {
+        parts.push(fuzz_part(ctx, "c02_handlers", &InProcess, 100_000, 2500));
+    }
     finish(
         ctx,
         parts,
